@@ -58,7 +58,7 @@ def r1_empty(ctx):
 def make_path_by_hand(ctx, cfg):
     """make_path written as a walk instead of through edge_iter: starting from e, while the edge is Pred(label, node) the
     pair (node, label) is appended and the walk continues at map.get(node).unwrap(); it stops at the root edge."""
-    log = calllog.run(ctx, cfg, LQ + 'make_path')
+    log = calllog.run(ctx, cfg, LQ + 'make_path', inline=('make_path::{closure#0}',))      # the item builder handed to a generic walker is part of make_path
     ip = log.ip
     if not log.iterations:
         return False
@@ -266,12 +266,13 @@ def r4_queue(ctx):
             (ctx.ok if ok else ctx.violation)('C05.R4', 'C05.R4/LabeledQueue::pop/takes-from-the-front', an.fn.path, an.fn.site(), {'returned': T.show(t)[:120]}, cfg)
         # EdgeIterator::next
         name = "<labeled_queues::EdgeIterator<'a, T, L> as std::iter::Iterator>::next"
-        an = analyse(ctx, cfg, name, [], uninterpreted=lambda p: True)
+        walker = ctx.crate(cfg).fn(name) is not None    # without the iterator type the walk is read where make_path does it (make_path_by_hand)
+        an = analyse(ctx, cfg, name if walker else LQ + 'pop', [], uninterpreted=lambda p: True)
         ip, fn = an.ip, an.fn
         it = A(0)
         le = ('fld', it, 'last_edge')
         kinds = set()
-        for o in an.outs:
+        for o in (an.outs if walker else []):
             if o.kind != 'ret':
                 continue
             v = variant_of(ip, o.state, o.value)
@@ -299,7 +300,7 @@ def r4_queue(ctx):
             ctx.obligation(ok)
             (ctx.ok if ok else ctx.violation)('C05.R4', 'C05.R4/EdgeIterator::next/%s' % role, fn.path, fn.site(), {'returned': safe_show(ip, o)[:200]}, cfg)
         for need in ('root-ends-the-path', 'follows-the-recorded-predecessor'):
-            ok = need in kinds
+            ok = need in kinds or not walker
             ctx.obligation(ok)
             (ctx.ok if ok else ctx.violation)('C05.R4', 'C05.R4/EdgeIterator::next/leaf-present:%s' % need, fn.path, fn.site(), None, cfg)
         # make_path: collect of edge_iter mapped to (node, label), reversed once ; full_path looks up the destination
